@@ -59,9 +59,9 @@ Hypothesis Hvals : vals_ok vals.
 Variable T : list node.
 Variable Dr : list fev.
 Variable es : estore.
-Variable k : N.
+Variable k : N -> Prop.       (* keys of forkless-cause cache entries that may be stale *)
 Hypothesis Hff : few_forkers vals T.
-Hypothesis NT : forall m, In m T -> ~ is_temp k (nd_id m).
+Hypothesis NT : forall m, In m T -> ~ k (nd_id m).
 Hypothesis HwfTD : wfTD vals T Dr.
 
 Notation ws := (map snd vals).
